@@ -1,4 +1,19 @@
 //@ prelude
+// `expr?` is `match expr { Ok(v) => v, Err(e) => return Err(From::from(e)) }`. Verus models `?` without
+// the conversion; rule R21 writes it as `expr.q_into::<E>()?` with this VERIFIED helper doing the conversion.
+pub trait TryConvert<T, E>: Sized {
+    fn q_into<F: From<E>>(self) -> Result<T, F>;
+}
+impl<T, E> TryConvert<T, E> for Result<T, E> {
+    fn q_into<F: From<E>>(self) -> (r: Result<T, F>)
+        ensures
+            self matches Ok(v) ==> r == Ok::<T, F>(v),
+            self matches Err(e) ==> r is Err && (<F as vstd::std_specs::convert::FromSpec<E>>::obeys_from_spec()
+                ==> r->Err_0 == <F as vstd::std_specs::convert::FromSpec<E>>::from_spec(e)),
+    {
+        match self { Ok(v) => Ok(v), Err(e) => Err(F::from(e)) }
+    }
+}
 // ---- specification vocabulary (RFC 8182 section 3.4.2 semantics of a delta file) ----
 pub enum DeltaElement {
     Publish { uri: RsyncUri, hash: Option<RrdpHash>, content: Seq<u8> },
@@ -114,6 +129,42 @@ _unused: HashMismatch
         res is Ok <==> (session_id == old(self).notify.content.session_spec()
                         && serial == old(self).notify.content.serial_spec()),
         *final(self) == *old(self),
+//@ fn SnapshotError::from_hash_mismatch
+//@ params
+_unused: HashMismatch
+//@ fn SnapshotUpdate::new
+//@ spec
+    ensures
+        res.collector == collector, res.notify == notify,
+        *res.archive == *old(archive), *final(res.archive) == *final(archive),
+        *res.metrics == *old(metrics), *final(res.metrics) == *final(metrics),
+//@ fn SnapshotUpdate::publish
+//@ spec
+    ensures
+        // C41 + C25: a fault in the CONTENT of the served snapshot (an object that is too large or
+        // unreadable, the same URI twice) is an error of this repository only; RunFailed (which aborts
+        // the whole validation run) is returned only after a fault of the LOCAL archive file
+        res matches Err(e) ==> (e is RunFailed ==> local_archive_fault(old(self).archive.path_spec())),
+        // C41 + C25: the same URI published twice is reported as DuplicateObject
+        (res matches Err(e) && !(e is LargeObject) && !(e is Rrdp) && !(e is RunFailed)
+            && old(self).archive.objects().contains_key(uri)) ==> res->Err_0 is DuplicateObject,
+        // a published object lands in the temporary archive under its URI
+        res is Ok ==> !old(self).archive.objects().contains_key(uri)
+            && final(self).archive.objects() == old(self).archive.objects().insert(uri, old(data).content_spec()),
+        final(self).notify == old(self).notify, final(self).collector == old(self).collector,
+        final(self).archive.path_spec() == old(self).archive.path_spec(),
+//@ closure 1
+|err: PublishError| -> (r: SnapshotError)
+    ensures err is AlreadyExists ==> r is DuplicateObject, r is RunFailed <==> err is Archive
+//@ fn SnapshotUpdate::try_update
+//@ entry
+        proof { axiom_snapshot_error_from_self(); }
+//@ spec
+    ensures
+        // C41 + C25: whatever the server sends (HTTP error or status, malformed XML, wrong session or
+        // serial, oversized or duplicate objects, hash mismatch), the snapshot update fails with an
+        // error of THIS repository; RunFailed only after a fault of the local archive file
+        res matches Err(e) ==> (e is RunFailed ==> local_archive_fault(old(self.archive).path_spec())),
 //@ fn DeltaUpdate::new
 //@ spec
     ensures
@@ -367,4 +418,32 @@ impl vstd::std_specs::convert::FromSpecImpl<ReqwestError> for DeltaError {
 impl vstd::std_specs::convert::FromSpecImpl<StatusCode> for HttpStatus {
     open spec fn obeys_from_spec() -> bool { false }
     open spec fn from_spec(v: StatusCode) -> HttpStatus { arbitrary() }
+}
+
+// The error conversions used by `?` in the snapshot path, stated exactly (checked against the
+// extracted `from` bodies): only From<RunFailed> yields SnapshotError::RunFailed.
+impl vstd::std_specs::convert::FromSpecImpl<HashMismatch> for SnapshotError {
+    open spec fn obeys_from_spec() -> bool { true }
+    open spec fn from_spec(v: HashMismatch) -> SnapshotError { SnapshotError::HashMismatch }
+}
+impl vstd::std_specs::convert::FromSpecImpl<StatusCode> for SnapshotError {
+    open spec fn obeys_from_spec() -> bool { true }
+    open spec fn from_spec(v: StatusCode) -> SnapshotError { SnapshotError::HttpStatus(v) }
+}
+impl vstd::std_specs::convert::FromSpecImpl<ReqwestError> for SnapshotError {
+    open spec fn obeys_from_spec() -> bool { true }
+    open spec fn from_spec(v: ReqwestError) -> SnapshotError { SnapshotError::Http(v) }
+}
+impl vstd::std_specs::convert::FromSpecImpl<LimitedDataReadError> for SnapshotError {
+    open spec fn obeys_from_spec() -> bool { true }
+    open spec fn from_spec(v: LimitedDataReadError) -> SnapshotError {
+        match v {
+            LimitedDataReadError::LargeObject(uri) => SnapshotError::LargeObject(uri),
+            LimitedDataReadError::Read(err) => SnapshotError::Rrdp(process_error_of_io(err)),
+        }
+    }
+}
+impl vstd::std_specs::convert::FromSpecImpl<RunFailed> for SnapshotError {
+    open spec fn obeys_from_spec() -> bool { true }
+    open spec fn from_spec(v: RunFailed) -> SnapshotError { SnapshotError::RunFailed(v) }
 }
